@@ -23,6 +23,7 @@
 #ifndef UTILJSONWRITE_H
 #define UTILJSONWRITE_H
 
+#include <limits>
 #include <vector>
 #include <string>
 #include <string_view>
@@ -187,8 +188,21 @@ protected:
   template <class Value>
   void DoWriteScalar(const Value& val) {
     MakeScalarIfUnset();
-    wrt_.write("{}", val);
+    wrt_.write("{}", FiniteValue(val));
     ++n_written_;
+  }
+
+  /// JSON has no representation for infinity:
+  /// write +-DBL_MAX instead, as for variable bounds.
+  template <class Value>
+  static Value FiniteValue(Value val) {
+    if constexpr (std::is_floating_point_v<Value>) {
+      if (val > std::numeric_limits<Value>::max())
+        return std::numeric_limits<Value>::max();
+      if (val < std::numeric_limits<Value>::lowest())
+        return std::numeric_limits<Value>::lowest();
+    }
+    return val;
   }
 
   template <class Str>
